@@ -88,6 +88,15 @@ Proof.
   rewrite map_nth, seq_nth by exact Hq. reflexivity.
 Qed.
 
+(* on i64 weights the loads of the machine are the loads of the specification *)
+Lemma wload_Z vw p q : wload vw p q = load vw p q.
+Proof.
+  revert p. induction vw as [|w vw IH]; intros [|x p]; cbn [wload load]; try reflexivity.
+  rewrite IH. reflexivity.
+Qed.
+Lemma wloads_Z vw p k : wloads vw p k = loads vw p k.
+Proof. unfold wloads, loads. apply map_ext. intros q. apply wload_Z. Qed.
+
 Lemma load_bounds vw p q : Forall (fun x => 0 <= x) vw -> 0 <= load vw p q <= sumZ vw.
 Proof.
   intros H. revert p. induction H as [|w vw Hw _ IH]; intros p; [cbn; lia|].
@@ -143,7 +152,7 @@ Proof.
     apply decide_spec in Hd as (_ & _ & Hpw & [Hu | (Hs & _ & wv & pwt & mx & E1 & E2 & E3 & Hle)]).
     - apply Hnot. now rewrite Hu.
     - unfold cap_ok. rewrite Hs. exists wv. split; [exact E1|].
-      rewrite Hpw. apply nz_nth_opt in E2, E3. lia. }
+      rewrite Hpw. apply nz_nth_opt in E2, E3. cbn in Hle. apply Z.ltb_ge in Hle. lia. }
   all: apply Hnot.
   all: wstep_inv H; try discriminate.
   all: injection H as <- <- <-; cbn [set_pc w_pc is_store]; auto.
@@ -207,6 +216,7 @@ Proof.
   - destruct (w_pc w) as [ | | | | | | v ip tg gn | | | | ] eqn:Hpc; try discriminate Hst.
     destruct (wstep_store _ _ _ _ _ _ _ _ _ _ _ _ Hstep Hpc)
       as (-> & Hv & _ & _ & Hpc' & wv & a & b & Ewv & Ea & Eb & Epw).
+    cbn [w_sub w_add wops_Z] in Eb, Epw.
     pose proof (gi_gain _ _ _ Hg _ _ Hw) as Hgw. unfold gain_ok in Hgw. rewrite Hpc in Hgw.
     destruct Hgw as (Hip & _ & Htg & Htk & _ & _).
     pose proof (Forall_nth_opt _ _ _ _ Hcap Hw) as Hcw. unfold cap_ok in Hcw. rewrite Hpc in Hcw.
@@ -323,7 +333,7 @@ Qed.
 
 Lemma init_cinv st0 : init_state cf p0 = Some st0 -> cinv st0.
 Proof.
-  unfold init_state. fold vw k.
+  unfold init_state. rewrite wloads_Z. fold vw k.
   destruct (thread_max cf (loads vw p0 k)) as [tm|] eqn:Et; [|discriminate]. intros [= <-].
   assert (Ll : length (loads vw p0 k) = k) by (unfold loads; now rewrite map_length, seq_length).
   split; cbn [g_locks g_part g_ws g_md g_pw g_tmax g_fin]; auto; try discriminate.
